@@ -1,8 +1,13 @@
 /-
   C09 — ending a process notifies waiters once, frees holdings, silences its events
-  Property theorems only (the process-layer model is CimbaModel/Sim; helper lemmas in CimbaModel/Sim/*).
+  Property theorems only (the process-layer model is CimbaModel/Sim; helper lemmas in CimbaModel/Sim/S1*.lean).
 -/
 import CimbaModel.Sim.Basic
+import CimbaModel.Sim.S1Demo
+import CimbaModel.Sim.S1WaitRun
+import CimbaModel.Sim.S1SilentRun
+import CimbaModel.Sim.S1PoolRun
+import CimbaModel.Sim.S1SilentIRun
 import CimbaModel.HashHeap.Orders
 
 namespace CimbaModel.Props.C09
@@ -13,5 +18,563 @@ open CimbaModel.HashHeap (HTag Item Order HH)
     end (SUCCESS) from a stop (STOPPED), and both from an interrupt, a timeout, a cancellation and a preemption -/
 theorem notification_codes_distinct :
     [sigSuccess, sigPreempted, sigInterrupted, sigStopped, sigCancelled, sigTimeout].Nodup := by decide
+
+/-! ### the three ways a process ends are one function -/
+
+/-- `exit v`, `stop` of oneself, `stop` of another running process and running off the end of the script all go through
+    `finishProc` (with `stopped = false` for return / exit, `true` for a stop) -/
+theorem ends_are_finishProc (w : World) (p q : Pid) (v : Int) :
+    execCmd w p (.exit v) = (finishProc w p v false, .ended) ∧
+    execCmd w p (.stop p v) = (finishProc w p v true, .ended) ∧
+    (q ≠ p → isRunning w q = true → execCmd w p (.stop q v) = (finishProc w q v true, .ret 0 "")) ∧
+    (q ≠ p → isRunning w q = false → execCmd w p (.stop q v) = (w, .ret 0 "")) := by
+  refine ⟨by simp only [execCmd], by simp only [execCmd, if_true], ?_, ?_⟩
+  · intro hq hr; simp only [execCmd, hq, if_false, hr, if_true]
+  · intro hq hr; simp [execCmd, hq, hr]
+
+/-- running off the end of the script is `exit 0` -/
+theorem return_is_exit_zero (fuel : Nat) (w : World) (p : Pid) (hend : (w.proc p).script[(w.proc p).pc]? = none) :
+    runScript (fuel + 1) w p = finishProc (w.emit s!"e {p} {w.now} 0") p 0 false := by
+  simp only [runScript, hend]
+
+/-! ### what the end leaves behind -/
+
+/-- **the record after the end**: nothing held, nothing awaited, nobody registered as waiting, status finished, not
+    suspended, and the exit value is what it returned / exited with / was stopped with -/
+theorem end_record (w : World) (p : Pid) (hp : p < w.procs.size) (val : Int) (stopped : Bool) :
+    ((finishProc w p val stopped).proc p).held = [] ∧
+    ((finishProc w p val stopped).proc p).awaits = [] ∧
+    ((finishProc w p val stopped).proc p).waiters = [] ∧
+    ((finishProc w p val stopped).proc p).status = .finished ∧
+    ((finishProc w p val stopped).proc p).exitVal = val ∧
+    ((finishProc w p val stopped).proc p).blocked = none :=
+  finishProc_record w p hp val stopped
+
+/-- **everything it held is released**: each resource it listed has no holder afterwards, nothing else changes hands
+    (pools: see C07; the release loop and its signals: `C05.end_signals_each_guard`) -/
+theorem end_releases (w : World) (p : Pid) (val : Int) (stopped : Bool) (r : Nat) :
+    (HoldRef.res r ∈ (w.proc p).held → (finishProc w p val stopped).holder r = none) ∧
+    (HoldRef.res r ∉ (w.proc p).held → (finishProc w p val stopped).holder r = w.holder r) :=
+  ⟨finishProc_frees w p val stopped r, finishProc_keeps w p val stopped r⟩
+
+/-! ### every waiter is resumed exactly once, at that instant, with the right code -/
+
+/-- **`wake_process_waiters`**: the pending set after the call is the pending set before it plus exactly one event per
+    entry of the waiter list, carrying the waiter as subject, the process wake-up action, the given signal, the
+    current time and the waiter's priority, with fresh consecutive handles; nothing is removed -/
+theorem end_notifies_each_waiter (w : World) (p : Pid) (sig : Int) :
+    (wakeWaiters w p sig).ev.pending =
+      (wakeTags aProc sig w.now (fun q => (w.proc q).prio) w.ev.counter (w.proc p).waiters).reverse ++ w.ev.pending ∧
+    (wakeTags aProc sig w.now (fun q => (w.proc q).prio) w.ev.counter (w.proc p).waiters).map (·.item.b)
+      = (w.proc p).waiters.map (· + 1) ∧
+    (∀ e ∈ wakeTags aProc sig w.now (fun q => (w.proc q).prio) w.ev.counter (w.proc p).waiters,
+      e.item.a = aProc ∧ e.item.c = encSig sig ∧ e.d = w.now ∧ w.ev.counter < e.key ∧
+        ∃ q ∈ (w.proc p).waiters, e.item.b = q + 1 ∧ e.i = (w.proc q).prio) ∧
+    ((wakeWaiters w p sig).proc p).waiters = [] := by
+  refine ⟨wakeWaiters_pending w p sig, wakeTags_subjects _ _ _ _ _ _, ?_, ?_⟩
+  · intro e he
+    obtain ⟨a, b, c, d, _, q, hq, f⟩ := mem_wakeTags he
+    exact ⟨a, b, c, d, q, hq, f⟩
+  · rw [wakeWaiters_waiters]; simp
+
+/-- exactly once: with a duplicate-free waiter list, the number of new wake-ups addressed to a process is 1 if it was
+    registered and 0 otherwise -/
+theorem end_notifies_once (w : World) (p : Pid) (sig : Int) (hnd : (w.proc p).waiters.Nodup) (q : Pid) :
+    ((wakeTags aProc sig w.now (fun q => (w.proc q).prio) w.ev.counter (w.proc p).waiters).filter
+        fun e => e.item.b = q + 1).length = if q ∈ (w.proc p).waiters then 1 else 0 := by
+  have h1 : ∀ (l : List HTag), (l.filter fun e => e.item.b = q + 1).length = (l.map (·.item.b)).count (q + 1) := by
+    intro l
+    induction l with
+    | nil => rfl
+    | cons a l ih =>
+      simp only [List.filter_cons, List.map_cons, List.count_cons]
+      by_cases e : a.item.b = q + 1
+      · simp [e, ih]
+      · simp [e, ih]
+  rw [h1, wakeTags_subjects]
+  rw [count_map_succ]
+  split
+  · rename_i hm; exact count_eq_one_of_nodup_mem _ _ hnd hm
+  · rename_i hm; exact List.count_eq_zero.2 hm
+
+/-- the code is SUCCESS for a normal end and STOPPED for a stop -/
+theorem end_code (w : World) (p : Pid) (val : Int) (stopped : Bool) :
+    finishProc w p val stopped =
+      (wakeWaiters (finishMid w p stopped) p (if stopped then sigStopped else sigSuccess)).modProc p
+        fun x => { x with status := .finished, exitVal := val, blocked := none } :=
+  finishProc_eq w p val stopped
+
+/-! ### a finished process stays silent in its own record, and never executes unless restarted -/
+
+/-- **I_dead, record part.**  The record of every process that is not running awaits nothing, is not suspended and
+    holds nothing; the record of every finished process is completely clean: moreover nobody is registered as waiting
+    for it. -/
+theorem deadRec_iff (w : World) :
+    DeadRec w ↔ ∀ p, (w.proc p).status ≠ .running →
+      (w.proc p).awaits = [] ∧ (w.proc p).blocked = none ∧ (w.proc p).held = [] ∧
+      ((w.proc p).status = .finished → (w.proc p).waiters = []) :=
+  Iff.rfl
+
+theorem deadRec_finished {w : World} (h : DeadRec w) (p : Pid) (hp : (w.proc p).status = .finished) :
+    (w.proc p).held = [] ∧ (w.proc p).awaits = [] ∧ (w.proc p).waiters = [] ∧ (w.proc p).blocked = none :=
+  h.clean p hp
+
+/-- it holds in every world in which the processes that are not running have empty records -/
+theorem deadRec_init (w : World) (h : ∀ p, (w.proc p).status ≠ .running →
+    (w.proc p).awaits = [] ∧ (w.proc p).blocked = none ∧ (w.proc p).held = [] ∧ (w.proc p).waiters = []) : DeadRec w :=
+  fun p hp => ⟨(h p hp).1, (h p hp).2.1, (h p hp).2.2.1, fun _ => (h p hp).2.2.2⟩
+
+/-- every command executed by a running process keeps it -/
+theorem deadRec_execCmd {w : World} (h : DeadRec w) (p : Pid) (hrun : (w.proc p).status = .running) (c : Cmd) :
+    DeadRec (execCmd w p c).1 := dr_execCmd h p hrun c
+
+/-- the end of any process establishes it for that process and keeps it for the others -/
+theorem deadRec_finishProc {w : World} (h : DeadRec w) (p : Pid) (val : Int) (stopped : Bool) :
+    DeadRec (finishProc w p val stopped) := dr_finishProc h p val stopped
+
+/-- **every dispatched event keeps it**, whatever the woken process then executes -/
+theorem deadRec_dispatch {w w' : World} (h : DeadRec w) (hd : dispatch w = some w') : DeadRec w' := dr_dispatch h hd
+
+/-- it holds at every instant of every run -/
+theorem deadRec_runAll {w : World} (h : DeadRec w) (fuel : Nat) : DeadRec (runAll fuel w) := dr_runAll fuel h
+
+/-- a command that does not end its caller leaves it running: a process stops executing only by ending -/
+theorem runs_until_it_ends (w : World) (p : Pid) (hrun : (w.proc p).status = .running) (c : Cmd)
+    (hne : ∀ w', execCmd w p c ≠ (w', .ended)) : ((execCmd w p c).1.proc p).status = .running :=
+  execCmd_running w p hrun c hne
+
+/-- **a finished process never executes**: resuming a process that is not running does nothing but record a fault (the
+    wake-up actions for process ends, events, grants and condition signals additionally test `isRunning` first) -/
+theorem finished_never_resumes (w : World) (p : Pid) (sig : Int) (h : (w.proc p).status = .finished) :
+    resumeProc w p sig = w.fail s!"resume of a process that is not running: {p}" :=
+  resumeProc_not_running w p sig (by rw [h]; decide)
+
+/-! ### restart -/
+
+/-- **`restart_clean`**: the dispatch of a start event for a process that is not running makes it running at the start
+    of its function (pc 0), not suspended; and for a process that had finished, under `DeadRec`, with nothing awaited,
+    nothing held and nobody registered as waiting -/
+theorem restart_clean {w : World} (h : DeadRec w) (t : HTag) (ev' : EvQ)
+    (hex : executeNext w.ev = some (t, ev')) (ha : t.item.a = aStart)
+    (hp : t.item.b - 1 < w.procs.size) (hfin : (w.proc (t.item.b - 1)).status = .finished) :
+    dispatch w = some (runScript ((w.proc (t.item.b - 1)).script.size + 2) (startWorld w t ev') (t.item.b - 1)) ∧
+    ((startWorld w t ev').proc (t.item.b - 1)).status = .running ∧
+    ((startWorld w t ev').proc (t.item.b - 1)).pc = 0 ∧
+    ((startWorld w t ev').proc (t.item.b - 1)).blocked = none ∧
+    ((startWorld w t ev').proc (t.item.b - 1)).awaits = [] ∧
+    ((startWorld w t ev').proc (t.item.b - 1)).held = [] ∧
+    ((startWorld w t ev').proc (t.item.b - 1)).waiters = [] :=
+  ⟨dispatch_start w t ev' hex ha (by rw [hfin]; decide), Sim.restart_clean h t ev' hp hfin⟩
+
+/-! ### non-vacuity -/
+
+/-- process 2 waits for process 0, which holds the resource and is stopped with value 7: exactly one wake-up, for
+    process 2 (subject 3), with the STOPPED code; the resource is free; the record is clean; the exit value is 7 -/
+example : (demoWaiting.proc 0).waiters = [2] ∧ (demoWaiting.proc 0).held = [.res 0] := by decide
+example : ((finishProc demoWaiting 0 7 true).ev.pending.map fun e => (e.item.a, e.item.b, e.item.c))
+    = [(aProc, 3, encSig sigStopped)] := by decide
+example : (finishProc demoWaiting 0 7 true).holder 0 = none ∧
+    ((finishProc demoWaiting 0 7 true).proc 0).exitVal = 7 ∧
+    ((finishProc demoWaiting 0 7 true).proc 0).status = .finished := by decide
+example : DeadRec demoWorld := deadRec_init _ (fun p hp => by
+  match p with
+  | 0 => exact absurd (by decide) hp
+  | 1 => exact absurd (by decide) hp
+  | 2 => exact absurd (by decide) hp
+  | n + 3 => simp [demoWorld, World.proc])
+
+/-! ### the registration invariant of `wait_process` -/
+
+/-- **`WaitersInv`** (`Sim.WInv`), in the vocabulary of the model.  A process registered on `p`'s waiter list awaits
+    the end of `p`; nobody is registered twice; a process awaits at most one process end and only while suspended in
+    `wait_process` on exactly that process; at most one process-end wake-up is pending per process, and a process
+    with such a wake-up pending still awaits a process end and is registered nowhere.
+    (The converse of the first clause — "awaits `p` ⇒ registered with `p`" — does not hold between the end of `p` and
+    the waiter's resumption in the same instant: the list has been emptied, the wake-up is pending; see the example
+    below.) -/
+theorem waitersInv_iff (w : World) :
+    WInv w ↔
+      (∀ p q, q ∈ (w.proc p).waiters → Await.proc p ∈ (w.proc q).awaits) ∧
+      (∀ p, (w.proc p).waiters.Nodup) ∧
+      (∀ q, ((w.proc q).awaits.filterMap procOf).length ≤ 1 ∧
+        ∀ p, Await.proc p ∈ (w.proc q).awaits → (w.proc q).blocked = some (.waitProc p)) ∧
+      (∀ q, (w.ev.pending.countP fun e => e.item.a = aProc && e.item.b = q + 1) ≤ 1) ∧
+      (∀ q, (∃ e ∈ w.ev.pending, e.item.a = aProc ∧ e.item.b = q + 1) →
+        (∃ p, Await.proc p ∈ (w.proc q).awaits) ∧ ∀ p, q ∉ (w.proc p).waiters) ∧
+      (∀ e ∈ w.ev.pending, e.item.a = aProc → 1 ≤ e.item.b) := by
+  have hmem : ∀ q p, p ∈ w.pa q ↔ Await.proc p ∈ (w.proc q).awaits := by
+    intro q p
+    unfold World.pa
+    rw [List.mem_filterMap]
+    constructor
+    · rintro ⟨a, ha, e⟩
+      cases a <;> simp_all [procOf]
+    · intro h; exact ⟨_, h, rfl⟩
+  have hnp : ∀ q, 0 < np w q ↔ ∃ e ∈ w.ev.pending, e.item.a = aProc ∧ e.item.b = q + 1 := by
+    intro q
+    unfold np
+    rw [cnt_pos_iff]
+    constructor
+    · rintro ⟨e, he, h⟩; unfold isAProc at h; simp at h; exact ⟨e, he, h⟩
+    · rintro ⟨e, he, h⟩; exact ⟨e, he, by unfold isAProc; simp [h]⟩
+  constructor
+  · intro h
+    refine ⟨fun p q hm => (hmem q p).1 (h.reg q p hm), h.nodup, ?_, h.one, ?_, h.subj⟩
+    · intro q
+      rcases h.frame q with e | ⟨p0, e, b⟩
+      · refine ⟨by show (w.pa q).length ≤ 1; rw [e]; simp, ?_⟩
+        intro p hp; have := (hmem q p).2 hp; rw [e] at this; cases this
+      · refine ⟨by show (w.pa q).length ≤ 1; rw [e]; simp, ?_⟩
+        intro p hp
+        have := (hmem q p).2 hp
+        rw [e] at this
+        rw [List.mem_singleton.1 this]; exact b
+    · intro q hq
+      obtain ⟨a, b⟩ := h.woken q ((hnp q).2 hq)
+      refine ⟨?_, b⟩
+      cases hl : w.pa q with
+      | nil => exact absurd hl a
+      | cons p l => exact ⟨p, (hmem q p).1 (by rw [hl]; exact List.mem_cons_self)⟩
+  · rintro ⟨h1, h2, h3, h4, h5, h6⟩
+    refine ⟨fun p q hm => (hmem p q).2 (h1 q p hm), h2, ?_, h4, ?_, h6⟩
+    · intro p
+      have hl : (w.pa p).length ≤ 1 := (h3 p).1
+      cases e : w.pa p with
+      | nil => exact Or.inl rfl
+      | cons q l =>
+        right
+        rw [e] at hl
+        have : l = [] := by
+          cases l with
+          | nil => rfl
+          | cons _ _ => simp at hl
+        subst this
+        exact ⟨q, rfl, (h3 p).2 q ((hmem p q).1 (by rw [e]; exact List.mem_cons_self))⟩
+    · intro q hq
+      obtain ⟨⟨p, hp⟩, b⟩ := h5 q ((hnp q).1 hq)
+      refine ⟨?_, b⟩
+      intro e
+      have := (hmem q p).2 hp
+      rw [e] at this; cases this
+
+/-- the registration invariant holds in every world in which nobody waits for a process end -/
+theorem waitersInv_init (w : World) (hw : ∀ p, (w.proc p).waiters = [])
+    (ha : ∀ q p, Await.proc p ∉ (w.proc q).awaits) (he : ∀ e ∈ w.ev.pending, e.item.a ≠ aProc) : WInv w := by
+  have hpa : ∀ q, w.pa q = [] := by
+    intro q
+    unfold World.pa
+    rw [List.filterMap_eq_nil_iff]
+    intro a ham
+    cases a with
+    | proc p => exact absurd ham (ha q p)
+    | time h => rfl
+    | guard g => rfl
+    | event h => rfl
+  have hnp : ∀ q, np w q = 0 := by
+    intro q
+    unfold np
+    rw [cnt_zero_iff]
+    intro e hem
+    unfold isAProc
+    have := he e hem
+    simp [this]
+  refine ⟨?_, ?_, fun p => Or.inl (hpa p), ?_, ?_, ?_⟩
+  · intro p q hm; rw [hw] at hm; cases hm
+  · intro q; rw [hw]; exact List.nodup_nil
+  · intro p; rw [hnp]; omega
+  · intro p hp; rw [hnp] at hp; omega
+  · intro e hem h; exact absurd h (he e hem)
+
+/-- every command keeps it (`p` executing, awaiting no process end — which the interpreter guarantees, see
+    `waitersInv_dispatch`) -/
+theorem waitersInv_execCmd {w : World} (h : WInv w) (p : Pid) (hp : p < w.procs.size) (hpa : w.pa p = []) (c : Cmd) :
+    WInv (execCmd w p c).1 := (winv_execCmd h p hp hpa c).1
+
+/-- the end of any process keeps it -/
+theorem waitersInv_finishProc {w : World} (h : WInv w) (p : Pid) (val : Int) (stopped : Bool) :
+    WInv (finishProc w p val stopped) := (winv_finishProc h p val stopped).1
+
+/-- **every dispatched event keeps it**, whatever the woken process then executes -/
+theorem waitersInv_dispatch {w w' : World} (h : WInv w) (hd : DeadRec w) (hdis : dispatch w = some w') : WInv w' :=
+  winv_dispatch h hd hdis
+
+/-- it holds at every instant of every run -/
+theorem waitersInv_runAll {w : World} (h : WInv w) (hd : DeadRec w) (fuel : Nat) : WInv (runAll fuel w) :=
+  winv_runAll fuel h hd
+
+/-- **`end_notifies_once` at full strength**: under the invariant, when `p` ends every registered waiter gets exactly
+    one new process-end wake-up (and had none pending before), nobody else gets one -/
+theorem end_notifies_exactly_once {w : World} (h : WInv w) (p : Pid) (sig : Int) (q : Pid) :
+    np (wakeWaiters w p sig) q = if q ∈ (w.proc p).waiters then 1 else np w q := by
+  rw [wakeWaiters_npcount]
+  split
+  · rename_i hm
+    have h0 : np w q = 0 := by
+      apply Classical.byContradiction
+      intro hn
+      exact (h.woken q (by omega)).2 p hm
+    rw [h0, count_eq_one_of_nodup_mem _ _ (h.nodup p) hm]
+  · rename_i hm
+    rw [List.count_eq_zero.2 hm]; rfl
+
+/-- the converse registration clause fails exactly in the window between the end and the wake-up: after process 0 of
+    the demo world has been stopped, process 2 still awaits it, its wake-up is pending, the waiter list is empty -/
+example : ((finishProc demoWaiting 0 7 true).proc 2).awaits = [.proc 0] ∧
+    ((finishProc demoWaiting 0 7 true).proc 0).waiters = [] ∧
+    np (finishProc demoWaiting 0 7 true) 2 = 1 := by decide
+
+/-! ### `end_silences`: the timers and wake-ups of a process die with it -/
+
+/-- **`Silent`**: every pending timer, process-end wake-up, preemption wake-up and resume event is addressed to a
+    process that is running -/
+theorem silent_iff (w : World) :
+    Silent w ↔ ∀ e ∈ w.ev.pending,
+      (e.item.a = aTime ∨ e.item.a = aProc ∨ e.item.a = aPreempt ∨ e.item.a = aResume) →
+        1 ≤ e.item.b ∧ (w.proc (e.item.b - 1)).status = .running := by
+  unfold Silent TgtRun silentAct
+  constructor
+  · intro h e he ha
+    exact h e he (by rcases ha with a | a | a | a <;> simp [a])
+  · intro h e he ha
+    exact h e he (by simp at ha; rcases ha with ((a | a) | a) | a <;> simp [a])
+
+theorem silent_init (w : World) (h : w.ev.pending = []) : Silent w := by
+  intro e he; rw [h] at he; cases he
+
+/-- **the four invariants together** (`HolderInv`, `WaitersInv`, `DeadRec`, `Silent`) are preserved by every
+    dispatched event, for every program and schedule -/
+theorem allInv_dispatch {w w' : World} (h : AllInv w) (hd : dispatch w = some w') : AllInv w' :=
+  allinv_dispatch h hd
+
+theorem allInv_runAll {w : World} (h : AllInv w) (fuel : Nat) : AllInv (runAll fuel w) := allinv_runAll fuel h
+
+/-- the end of a process keeps them -/
+theorem allInv_finishProc {w : World} (h : AllInv w) (p : Pid) (val : Int) (stopped : Bool) :
+    AllInv (finishProc w p val stopped) := allinv_finishProc h p val stopped
+
+/-- every command of a running process that awaits no process end keeps them -/
+theorem allInv_execCmd {w : World} (h : AllInv w) (p : Pid) (hp : p < w.procs.size)
+    (hrun : (w.proc p).status = .running) (hpa : w.pa p = []) (c : Cmd) : AllInv (execCmd w p c).1 :=
+  allinv_execCmd h p hp hrun hpa c
+
+/-- **`end_silences_partial`**.  Under the invariants, at every instant of every run: for a process that is not
+    running (in particular a finished one) no timer, no process-end wake-up, no preemption wake-up and no resume event
+    is pending — none of them fires after its end.
+
+    Full statement (task item 6, `DeadInv`): *no* event with subject `p+1` other than a start event is pending for a
+    finished `p`, and `guardEnqueued w g p = false` for every guard.  Not covered here: the event wake-ups (`aEvent`),
+    grants (`aRes`), condition wake-ups (`aCond`) and interrupts (`aIntr`, which the pool's mugging loop also uses):
+    their targets come from the event-waiter lists, the guards' waiting lists and the pools' holder lists, and showing
+    that a finished process is on none of these needs the registration invariants for those three registries
+    (the analogue of `WaitersInv`; see notes/S1.md). -/
+theorem end_silences_partial {w : World} (h : AllInv w) (p : Pid) (hp : (w.proc p).status ≠ .running) :
+    ∀ e ∈ w.ev.pending, e.item.b = p + 1 →
+      e.item.a ≠ aTime ∧ e.item.a ≠ aProc ∧ e.item.a ≠ aPreempt ∧ e.item.a ≠ aResume := by
+  intro e he hb
+  have := h.silent.none_for p hp e he hb
+  unfold silentAct at this
+  simp at this
+  exact ⟨this.1.1.1, this.1.1.2, this.1.2, this.2⟩
+
+/-- in particular right after the end of `p` (whoever ended it) -/
+theorem end_silences_at_end {w : World} (h : AllInv w) (p : Pid) (hp : p < w.procs.size) (val : Int) (stopped : Bool) :
+    ∀ e ∈ (finishProc w p val stopped).ev.pending, e.item.b = p + 1 →
+      e.item.a ≠ aTime ∧ e.item.a ≠ aProc ∧ e.item.a ≠ aPreempt ∧ e.item.a ≠ aResume :=
+  end_silences_partial (allinv_finishProc h p val stopped) p
+    (by rw [(finishProc_record w p hp val stopped).2.2.2.1]; decide)
+
+/-- non-vacuity: the demo world satisfies the four invariants, so they hold along all its runs -/
+example : AllInv demoWorld := by
+  have hproc : ∀ n, demoWorld.proc (n + 3) = {} := fun n => by simp [demoWorld, World.proc]
+  have hheld : ∀ p, (demoWorld.proc p).held = [] := by
+    intro p
+    match p with
+    | 0 => decide
+    | 1 => decide
+    | 2 => decide
+    | n + 3 => rw [hproc]
+  have haw : ∀ p, (demoWorld.proc p).awaits = [] := by
+    intro p
+    match p with
+    | 0 => decide
+    | 1 => decide
+    | 2 => decide
+    | n + 3 => rw [hproc]
+  have hwt : ∀ p, (demoWorld.proc p).waiters = [] := by
+    intro p
+    match p with
+    | 0 => decide
+    | 1 => decide
+    | 2 => decide
+    | n + 3 => rw [hproc]
+  have hbl : ∀ p, (demoWorld.proc p).blocked = none := by
+    intro p
+    match p with
+    | 0 => decide
+    | 1 => decide
+    | 2 => decide
+    | n + 3 => rw [hproc]
+  refine ⟨?_, ?_, ?_, silent_init _ rfl⟩
+  · intro r p
+    have hc : demoWorld.hcount p r = 0 := by unfold World.hcount; rw [hheld]; rfl
+    have hh : demoWorld.holder r = none := by
+      match r with
+      | 0 => decide
+      | n + 1 => exact holder_none_of_no_res _ _ (by simp [demoWorld])
+    rw [hc, hh]; rfl
+  · exact waitersInv_init _ hwt (fun q p => by rw [haw]; simp) (fun e he => by cases he)
+  · intro p _; exact ⟨haw p, hbl p, hheld p, fun _ => hwt p⟩
+
+/-! ### pools: everything it held is released -/
+
+/-- **the pool-holder invariant** (`Sim.PInv`): the holder list of every pool is a well-formed hashheap, and every
+    process on it lists that pool among its holdings (process indices fit the 64-bit keys) -/
+theorem poolHolderInv_iff (w : World) :
+    PInv w ↔ w.procs.size < 2 ^ 64 ∧
+      (∀ (pl : Nat) (x : Pool), w.pools[pl]? = some x → HashHeap.WF holder_queue_check x.holders) ∧
+      (∀ (pl : Nat) (x : Pool) (p : Pid), w.pools[pl]? = some x → p + 1 ∈ KPQ.keys (HashHeap.abs x.holders) →
+        HoldRef.pool pl ∈ (w.proc p).held) := by
+  constructor
+  · intro h
+    refine ⟨h.small, fun pl x hx => h.wf pl x.holders (ph_eq w pl x hx), ?_⟩
+    intro pl x p hx hk
+    exact h.listed pl p (by rw [hk_eq w pl x hx]; exact hk)
+  · rintro ⟨h1, h2, h3⟩
+    refine ⟨h1, ?_, ?_⟩
+    · intro pl hh hph
+      unfold World.ph at hph
+      cases hx : w.pools[pl]? with
+      | none => rw [hx] at hph; cases hph
+      | some x =>
+        rw [hx] at hph; injection hph with hph; subst hph
+        exact h2 pl x hx
+    · intro pl p hk
+      unfold World.hk World.ph at hk
+      cases hx : w.pools[pl]? with
+      | none => rw [hx] at hk; cases hk
+      | some x =>
+        rw [hx] at hk
+        exact h3 pl x p hx hk
+
+/-- it holds when every holder list is freshly initialised (`cmi_hashheap_initialize` with a valid exponent) -/
+theorem poolHolderInv_init (w : World) (hs : w.procs.size < 2 ^ 64)
+    (hp : ∀ (pl : Nat) (x : Pool), w.pools[pl]? = some x → ∃ e, 1 ≤ e ∧ e ≤ 31 ∧ x.holders = mkHH e) : PInv w := by
+  have hmk : ∀ e, 1 ≤ e → e ≤ 31 → HashHeap.WF holder_queue_check (mkHH e) ∧ HashHeap.abs (mkHH e) = [] := by
+    intro e h1 h31
+    obtain ⟨s, hi, hwf, habs, _⟩ := HashHeap.init_spec (lt := holder_queue_check) e h1 h31
+    unfold mkHH; rw [hi]; exact ⟨hwf, habs⟩
+  rw [poolHolderInv_iff]
+  refine ⟨hs, ?_, ?_⟩
+  · intro pl x hx
+    obtain ⟨e, h1, h31, he⟩ := hp pl x hx
+    rw [he]; exact (hmk e h1 h31).1
+  · intro pl x p hx hk
+    obtain ⟨e, h1, h31, he⟩ := hp pl x hx
+    rw [he, (hmk e h1 h31).2] at hk
+    cases hk
+
+/-- **every dispatched event keeps it**, for every program and schedule: acquiring, preempting (mugging lower-priority
+    holders), releasing, rolling back an interrupted acquisition, ending while holding, changing priorities -/
+theorem poolHolderInv_dispatch {w w' : World} (h : PInv w) (hd : dispatch w = some w') : PInv w' := pinv_dispatch h hd
+
+theorem poolHolderInv_runAll {w : World} (h : PInv w) (fuel : Nat) : PInv (runAll fuel w) := pinv_runAll fuel h
+
+theorem poolHolderInv_execCmd {w : World} (h : PInv w) (p : Pid) (hp : p < w.procs.size) (c : Cmd) :
+    PInv (execCmd w p c).1 := pinv_execCmd h p hp c
+
+/-- **after its end a process is on no pool's holder list** (return, exit, stop) -/
+theorem end_releases_pools {w : World} (h : PInv w) (p : Pid) (val : Int) (stopped : Bool) (pl : Nat) (x : Pool)
+    (hx : (finishProc w p val stopped).pools[pl]? = some x) :
+    p + 1 ∉ KPQ.keys (HashHeap.abs x.holders) := by
+  have := finishProc_off h p val stopped pl
+  rw [hk_eq _ pl x hx] at this
+  exact this
+
+/-- at every instant: a process that is not running (in particular a finished one) is on no pool's holder list, i.e.
+    the mugging loop of a preempting acquisition only ever takes from running processes -/
+theorem pool_holders_are_running {w : World} (h : PInv w) (hd : DeadRec w) (pl : Nat) (x : Pool)
+    (hx : w.pools[pl]? = some x) (p : Pid) (hk : p + 1 ∈ KPQ.keys (HashHeap.abs x.holders)) :
+    (w.proc p).status = .running := by
+  apply Classical.byContradiction
+  intro hnr
+  exact h.not_running hd p hnr pl (by rw [hk_eq w pl x hx]; exact hk)
+
+/-! ### all invariants together; interrupts -/
+
+/-- **`FullInv`** = `HolderInv ∧ WaitersInv ∧ DeadRec ∧ Silent ∧ PoolHolderInv ∧ SilentI` is preserved by every
+    dispatched event, for every program and schedule -/
+theorem fullInv_dispatch {w w' : World} (h : FullInv w) (hd : dispatch w = some w') : FullInv w' :=
+  fullinv_dispatch h hd
+
+theorem fullInv_runAll {w : World} (h : FullInv w) (fuel : Nat) : FullInv (runAll fuel w) := fullinv_runAll fuel h
+
+theorem fullInv_execCmd {w : World} (h : FullInv w) (p : Pid) (hp : p < w.procs.size)
+    (hrun : (w.proc p).status = .running) (hpa : w.pa p = []) (c : Cmd) : FullInv (execCmd w p c).1 :=
+  fullinv_execCmd h p hp hrun hpa c
+
+theorem fullInv_finishProc {w : World} (h : FullInv w) (p : Pid) (val : Int) (stopped : Bool) :
+    FullInv (finishProc w p val stopped) := fullinv_finishProc h p val stopped
+
+/-- `SilentI`: every pending interrupt wake-up (from the `interrupt` command or from the mugging loop of a preempting
+    pool acquisition) is addressed to a running process -/
+theorem silentI_iff (w : World) :
+    SilentI w ↔ ∀ e ∈ w.ev.pending, e.item.a = aIntr → 1 ≤ e.item.b ∧ (w.proc (e.item.b - 1)).status = .running :=
+  Iff.rfl
+
+/-- **`end_silences_partial`, five kinds**: under the invariants, for a process that is not running no timer,
+    process-end wake-up, preemption wake-up, resume event or interrupt is pending.  (Still open: event wake-ups,
+    grants and condition wake-ups — see `end_silences_partial`.) -/
+theorem end_silences_partial_five {w : World} (h : FullInv w) (p : Pid) (hp : (w.proc p).status ≠ .running) :
+    ∀ e ∈ w.ev.pending, e.item.b = p + 1 →
+      e.item.a ≠ aTime ∧ e.item.a ≠ aProc ∧ e.item.a ≠ aPreempt ∧ e.item.a ≠ aResume ∧ e.item.a ≠ aIntr := by
+  intro e he hb
+  obtain ⟨a, b, c, d⟩ := end_silences_partial h.all p hp e he hb
+  exact ⟨a, b, c, d, h.intr.none_for p hp e he hb⟩
+
+/-! ### non-vacuity of the dispatch-level theorems: a complete run -/
+
+/-- the scenario world (three processes, one resource, start events pending) satisfies all the invariants … -/
+theorem scenario_fullInv : FullInv scenWorld := by
+  have hproc : ∀ n, scenWorld.proc (n + 3) = {} := fun n => by simp [scenWorld, World.proc, sched, schedule]
+  have hall : ∀ p, (scenWorld.proc p).held = [] ∧ (scenWorld.proc p).awaits = [] ∧ (scenWorld.proc p).waiters = [] ∧
+      (scenWorld.proc p).blocked = none := by
+    intro p
+    match p with
+    | 0 => decide
+    | 1 => decide
+    | 2 => decide
+    | n + 3 => rw [hproc]; exact ⟨rfl, rfl, rfl, rfl⟩
+  have hpend : ∀ e ∈ scenWorld.ev.pending, e.item.a = aStart := by decide
+  refine ⟨⟨?_, ?_, ?_, ?_⟩, ?_, ?_⟩
+  · intro r p
+    have hc : scenWorld.hcount p r = 0 := by unfold World.hcount; rw [(hall p).1]; rfl
+    have hh : scenWorld.holder r = none := by
+      match r with
+      | 0 => decide
+      | n + 1 => exact holder_none_of_no_res _ _ (by simp [scenWorld, sched, schedule])
+    rw [hc, hh]; rfl
+  · exact waitersInv_init _ (fun p => (hall p).2.2.1) (fun q p => by rw [(hall q).2.1]; simp)
+      (fun e he => by rw [hpend e he]; decide)
+  · intro p _; exact ⟨(hall p).2.1, (hall p).2.2.2, (hall p).1, fun _ => (hall p).2.2.1⟩
+  · intro e he hs; rw [hpend e he] at hs; exact absurd hs (by decide)
+  · refine ⟨by decide, ?_, ?_⟩
+    · intro pl h hph
+      have : scenWorld.ph pl = none := by simp [World.ph, scenWorld, sched, schedule]
+      rw [this] at hph; cases hph
+    · intro pl p hk
+      have : scenWorld.hk pl = [] := by simp [World.hk, World.ph, scenWorld, sched, schedule]
+      rw [this] at hk; cases hk
+  · intro e he hi; rw [hpend e he] at hi; exact absurd hi (by decide)
+
+/-- … hence so does every world of its run (an instance of `fullInv_runAll`) … -/
+theorem scenario_run_fullInv (fuel : Nat) : FullInv (runAll fuel scenWorld) := fullInv_runAll scenario_fullInv fuel
+
+/-- … and the run is not trivial: it ends without fault, all three processes have finished (process 2 with exit value 3),
+    nobody holds anything, the resource is free and no event is left -/
+theorem scenario_run_result :
+    (runAll 100 scenWorld).fault = none ∧
+    ((runAll 100 scenWorld).procs.map fun p => (p.status.toNat, p.exitVal, p.held.length))
+      = #[(2, 0, 0), (2, 0, 0), (2, 3, 0)] ∧
+    (runAll 100 scenWorld).holder 0 = none ∧ (runAll 100 scenWorld).ev.pending = [] := by decide +kernel
 
 end CimbaModel.Props.C09
